@@ -72,11 +72,17 @@ inductive BI where
   | viewPrint | width
   deriving DecidableEq, Repr, Inhabited
 
+/-- what stands in an argument position: a scalar of one of the five built-in types, or one of the
+non-scalar kinds of `harness/src/builtins.rs::odd_kinds` (record variable, record-typed array element,
+record-valued field, whole array with and without `()`, fixed-length string, record field of each type,
+call of an undefined function, variable never assigned) -/
 inductive Ty where
   | int | long | sgl | dbl | str
+  | recordVariable | recordArrayElement | nestedRecordVariable | recordValuedField | recordValuedFieldOfArrayElement | wholeArrayInt | wholeArrayIntParens | wholeArrayStr | wholeArrayStrParens | wholeArrayDbl2 | wholeArrayDbl2Parens | wholeArrayRecord | wholeArrayRecordParens | wholeArrayFixedStringParens | fixedStringVariable | fixedStringArrayElement | fieldInt | fieldLong | fieldSingle | fieldDouble | fieldFixedString | fieldOfArrayElement | nestedField | undefinedFunction | undefinedFunctionStr | undefinedFunctionInt2 | unassignedVariable | unassignedVariableStr
   deriving DecidableEq, Repr, Inhabited
 
-/-- argument shape: a variable, or a literal / constant expression -/
+/-- argument shape: a variable, or a literal / constant expression; for the non-scalar kinds `var` is the
+bare form and `lit` the same in parentheses -/
 inductive Sh where
   | var | lit
   deriving DecidableEq, Repr, Inhabited
